@@ -148,22 +148,23 @@ pub fn append_rule(rule: Arc<Rule>) -> bool {
         }
     }
     let mut placeholder = Vec::new();
-    let new_tcs_of_res = build_resource_circuit_breaker(
-        &rule.resource,
-        BREAKER_RULES.read().unwrap().get(&rule.resource).unwrap(),
-        BREAKER_MAP
-            .write()
-            .unwrap()
-            .get_mut(&rule.resource)
-            .unwrap_or(&mut placeholder),
-    );
-    if !new_tcs_of_res.is_empty() {
-        BREAKER_MAP
-            .write()
-            .unwrap()
-            .entry(rule.resource.clone())
-            .or_default()
-            .push(Arc::clone(&new_tcs_of_res[0]));
+    let breaker_rules = BREAKER_RULES.read().unwrap();
+    let mut breaker_map = BREAKER_MAP.write().unwrap();
+    if let Some(rules_of_res) = breaker_rules.get(&rule.resource) {
+        // `build_resource_*` moves the reused items out of the old list,
+        // so the returned list has to replace the old one as a whole
+        let new_tcs_of_res = build_resource_circuit_breaker(
+            &rule.resource,
+            rules_of_res,
+            breaker_map
+                .get_mut(&rule.resource)
+                .unwrap_or(&mut placeholder),
+        );
+        if new_tcs_of_res.is_empty() {
+            breaker_map.remove(&rule.resource);
+        } else {
+            breaker_map.insert(rule.resource.clone(), new_tcs_of_res);
+        }
     }
     true
 }
